@@ -266,7 +266,8 @@ def unindexed_dirs(root):
 
 def enumerate_points(trace):
     c = collections.Counter()
-    for name, arg in trace:
+    for ent in trace:
+        name = ent[0]
         if name.startswith("rd."):
             continue
         c[name] += 1
